@@ -357,4 +357,8 @@ def bookkeeping_problems(world, snap: Snapshot) -> List[str]:
     for cname, ce in world.ces.items():
         if ce.uid not in CompositeEnvelope._containers:
             probs.append(f"handle: {cname} uid not registered")
+    for group in getattr(world, "ce_groups", []):
+        conts = {id(CompositeEnvelope._containers.get(world.ces[c].uid)) for c in group}
+        if len(conts) > 1:
+            probs.append(f"handles: merged composite handles {sorted(group)} resolve to {len(conts)} different containers")
     return probs
